@@ -1,0 +1,67 @@
+// Copyright 2026 The Go MCP SDK Authors. All rights reserved.
+// Use of this source code is governed by an MIT-style
+// license that can be found in the LICENSE file.
+
+//go:build verif
+
+package jsonrpc2
+
+import (
+	"fmt"
+	"sort"
+)
+
+// VerifHook, when non-nil, is called immediately before every critical
+// section of a Connection (each call of updateInFlight) with the name of the
+// site and the subject in scope there. A verification harness uses it to park
+// the calling goroutine and thereby control the schedule one atomic section at
+// a time. It must only be set while no Connection is in use.
+var VerifHook func(c *Connection, site string, subject any)
+
+func verifYield(c *Connection, site string, subject any) {
+	if h := VerifHook; h != nil {
+		h(c, site, subject)
+	}
+}
+
+// VerifState is a copy of the Connection's in-flight bookkeeping.
+type VerifState struct {
+	Closing, Reading, ReadErr, WriteErr, CloserUsed, Done bool
+	OutgoingCalls                                         []ID // sorted by String()
+	OutgoingNotifications, Incoming                       int
+	IncomingByID                                          []ID // sorted
+	Queue                                                 []*Request
+	HandlerRunning                                        bool
+}
+
+// VerifSnapshot returns the current state. It takes the state lock.
+func (c *Connection) VerifSnapshot() VerifState {
+	c.stateMu.Lock()
+	defer c.stateMu.Unlock()
+	s := &c.state
+	v := VerifState{
+		Closing: s.connClosing, Reading: s.reading, ReadErr: s.readErr != nil, WriteErr: s.writeErr != nil,
+		CloserUsed: s.closer == nil, OutgoingNotifications: s.outgoingNotifications, Incoming: s.incoming,
+		HandlerRunning: s.handlerRunning,
+	}
+	select {
+	case <-c.done:
+		v.Done = true
+	default:
+	}
+	for id := range s.outgoingCalls {
+		v.OutgoingCalls = append(v.OutgoingCalls, id)
+	}
+	for id := range s.incomingByID {
+		v.IncomingByID = append(v.IncomingByID, id)
+	}
+	less := func(l []ID) func(i, j int) bool {
+		return func(i, j int) bool { return fmt.Sprint(l[i].Raw()) < fmt.Sprint(l[j].Raw()) }
+	}
+	sort.Slice(v.OutgoingCalls, less(v.OutgoingCalls))
+	sort.Slice(v.IncomingByID, less(v.IncomingByID))
+	for _, r := range s.handlerQueue {
+		v.Queue = append(v.Queue, r.Request)
+	}
+	return v
+}
